@@ -150,6 +150,7 @@ func drawNodeOpts(d Drawer, p *Profile, id uint64, uniPre, uniCQ, mixed bool) No
 	if o.CheckQuorum && pct(d, p.PLease, l("lease")) {
 		o.LeaseRead = true
 	}
+	o.LazySync = pct(d, 50, l("lazysync"))
 	if pct(d, p.PSnapStored, l("snapstored")) {
 		o.SnapMode = SnapStored
 	}
